@@ -77,6 +77,12 @@ def check_pred(rep, ix):
     loops = [n for n in walk_no_nested(f) if isinstance(n, ast.For)]
     ok = len(loops) == 1 and _n(loops[0].iter) == 'self.channels' and [_n(s) for s in loops[0].body] == [f'{loops[0].target.id}.init_array({f.args.args[1].arg})']
     rep.ob('R-C04-PRED', f'{CLP}:FrameArray.init_arrays', 'full allocation covers every channel', ok, node=f, module=cm)
+    # (the arrays are allocated afresh on every call: a call that returns before the loop keeps what an earlier, possibly partial,
+    # allocation left - channels of zero length after init_arrays_partial)
+    early = [n for n in walk_no_nested(f) if isinstance(n, ast.Return)]
+    rep.ob('R-C04-PRED', f'{CLP}:FrameArray.init_arrays', 'every call that does not refuse its argument reaches the allocation loop (no return before it; the loop is a statement of the body itself)',
+           len(loops) == 1 and any(st is loops[0] for st in f.body) and not early, found=f'{len(early)} return statement(s)' if early else 'loop nested', required='allocation independent of earlier calls',
+           node=early[0] if early else f, module=cm)
 
 
 def check_sel(rep, ix):
